@@ -15,7 +15,7 @@ use crate::engine::{guarded, hex, show, unhex, Report, Sys, Tier, Violation};
 use crate::refmodel::head;
 use crate::refmodel::reqvalid::{self, ReqFacts};
 
-pub const RULE: &str = "flows = every state of the redirect-chain graph (original GET / POST with authorization, cookie, content-length, x-keep; statuses {302,307}; Locations {same host /q, other host http://b.test/q, same host https}; both policies; depth 0..3) x caller additions: all sequences of length 0..=3 (thorough 0..=4) over the pool {cookie: k=NEW1, cookie: k=NEW2, authorization: NEW, content-length: 0 (with send-body-despite-method), host: h.test, host: h.test:80, host: h.test:443 (default ports spelled out), x-api-key with a value flagged sensitive, connection: close, x-a: 1, X-MiXeD: v, cookie and authorization EQUAL to the inherited ones, a non-UTF-8 cookie value} plus long sequences of n = 4..=60 additions cycling through the pool; restricted to requests the validity model accepts; head written under twelve buffer schedules (send_body_despite_method() called before, between and after the additions), parsed back and compared in full with the reference head (added in order, derived headers, unsuppressed originals). distinct = distinct (flow state, addition sequence) pairs";
+pub const RULE: &str = "flows = every state of the redirect-chain graph (original GET / POST with authorization, cookie, content-length, x-keep; statuses {302,307}; Locations {same host /q, other host http://b.test/q, same host https}; both policies; depth 0..3; also a chain whose original request names its Host explicitly) x caller additions: all sequences of length 0..=3 (thorough 0..=4) over the pool {cookie: k=NEW1, cookie: k=NEW2, authorization: NEW, content-length: 0 (with send-body-despite-method), host: h.test, host: h.test:80, host: h.test:443 (default ports spelled out), x-api-key with a value flagged sensitive, connection: close, x-a: 1, X-MiXeD: v, cookie and authorization EQUAL to the inherited ones, a non-UTF-8 cookie value} plus long sequences of n = 4..=60 additions cycling through the pool; restricted to requests the validity model accepts; head written under twelve buffer schedules (send_body_despite_method() called before, between and after the additions), parsed back and compared in full with the reference head (added in order, derived headers, unsuppressed originals); plus a relative-URI request without any original header x all addition sequences of length 1..=2 over the non-framing, non-Host pool entries. distinct = distinct (flow state, addition sequence) pairs";
 
 const POOL: [(&str, &[u8]); 15] = [("transfer-encoding", b"chunked"), ("cookie", b"k=NEW1"), ("cookie", b"k=NEW2"), ("authorization", b"NEW"), ("content-length", b"0"), ("host", b"h.test"), ("connection", b"close"), ("x-a", b"1"), ("X-MiXeD", b"v"), ("cookie", b"k=ORIG"), ("authorization", b"S3CRET"), ("cookie", b"caf\xe9"), ("x-api-key", b"K3Y"), ("host", b"h.test:80"), ("host", b"h.test:443")];
 
@@ -32,7 +32,7 @@ fn chain_cfgs() -> Vec<Arc<ChainCfg>> {
     let locs = vec![Loc::one("/q"), Loc::one("http://b.test/q"), Loc::one("https://a.test/s")];
     let mut out = Vec::new();
     for (m, cl) in [("GET", false), ("POST", true), ("HEAD", false)] {
-        let mut r = ReqCfg::new(m, "1.1", "http://a.test/p").orig("authorization", "S3CRET").orig("cookie", "k=ORIG").orig("x-keep", "1").orig("accept", "*/*");
+        let mut r = ReqCfg::new(m, "1.1", "http://a.test/p").orig("authorization", "S3CRET").orig("cookie", "k=ORIG").orig("x-keep", "1").orig("accept", "*/*").orig("x-cookie", "keep").orig("www-authorization", "W");
         if m == "HEAD" {
             // repeated credential fields
             r = r.orig("cookie", "k2=ORIG").orig("authorization", "S3CRET-2");
@@ -44,6 +44,9 @@ fn chain_cfgs() -> Vec<Arc<ChainCfg>> {
         }
         out.push(Arc::new(ChainCfg { prop: "C16", req: r, body, statuses: vec![302, 307], locs: locs.clone(), max_hops: 3, check_credentials: true, check_target: false, refuse_expect: false }));
     }
+    // an original request that names its Host explicitly (inherited along the chain, never derived)
+    let r = ReqCfg::new("GET", "1.1", "http://a.test/p").orig("x-first", "1").orig("host", "explicit.test").orig("authorization", "S3CRET").orig("cookie", "k=ORIG");
+    out.push(Arc::new(ChainCfg { prop: "C16", req: r, body: vec![], statuses: vec![302], locs: vec![Loc::one("/q"), Loc::one("http://b.test/q")], max_hops: 2, check_credentials: true, check_target: false, refuse_expect: false }));
     out
 }
 
@@ -210,6 +213,54 @@ fn check(st: &ChainSt, added: &[(String, Vec<u8>)]) -> (Option<(String, String)>
     }
 }
 
+/// Depth 0, request with a relative URI and no original header at all (nothing to derive a Host from):
+/// every added header must still come out, in order.
+fn relative_uri_additions(rep: &mut Report) {
+    let idx: Vec<usize> = (0..POOL.len()).filter(|i| !matches!(POOL[*i].0, "host" | "content-length" | "transfer-encoding")).collect();
+    let mut seqs: Vec<Vec<usize>> = Vec::new();
+    for &a in &idx {
+        seqs.push(vec![a]);
+        for &b in &idx {
+            seqs.push(vec![a, b]);
+        }
+    }
+    for (qi, sq) in seqs.iter().enumerate() {
+        let added: Vec<(String, Vec<u8>)> = sq.iter().map(|i| (POOL[*i].0.to_string(), POOL[*i].1.to_vec())).collect();
+        let r = guarded(|| -> Option<(String, String)> {
+            let req = ureq_proto::http::Request::builder().method("GET").uri("/some/path?x=1").body(()).ok()?;
+            let mut f = ureq_proto::client::flow::Flow::new(req).ok()?;
+            for (k, v) in &added {
+                if let Err(e) = f.header(HeaderName::from_bytes(k.as_bytes()).unwrap(), header_value(k, v)) {
+                    return Some(("C16:header-call-failed".into(), format!("header({}, ..) failed: {:?}", k, e)));
+                }
+            }
+            let a = write_head(&f, false);
+            if let Some(e) = &a.err {
+                return Some(("C16:valid-request-refused".into(), format!("relative-URI request with added {:?} was refused: {}", added.iter().map(|(k, v)| format!("{}: {}", k, show(v))).collect::<Vec<_>>(), e)));
+            }
+            let h = match head::parse(&a.bytes) {
+                Ok(h) => h,
+                Err(e) => return Some(("out-of-scope:C16:head-malformed".into(), format!("{}: {:?}", e, show(&a.bytes)))),
+            };
+            let want: Vec<(String, Vec<u8>)> = added.iter().map(|(k, v)| (k.to_ascii_lowercase(), v.clone())).collect();
+            if h.fields != want {
+                return Some(("C16:added-header-missing:relative-uri".into(), format!("request GET /some/path?x=1 without original headers, added {:?}: the head carries {:?}", added.iter().map(|(k, v)| format!("{}: {}", k, show(v))).collect::<Vec<_>>(), show(&a.bytes))));
+            }
+            None
+        });
+        rep.evaluations += 1;
+        rep.transitions += 1;
+        let fail = match r {
+            Ok(x) => x,
+            Err(p) => Some((format!("C16:panic:{}", crate::engine::panic_site(&p)), p)),
+        };
+        if let Some((key, what)) = fail {
+            rep.violation(Violation { key, ord: 100 + qi as u64, what, replay: json!({"kind": "relative-uri"}) });
+        }
+    }
+    rep.extra("relative_uri_sequences", json!(seqs.len()));
+}
+
 pub fn run(tier: Tier) -> Report {
     let seqs = sequences(if tier.thorough() { 4 } else { 3 });
     let mut rep = Report::new();
@@ -265,11 +316,17 @@ pub fn run(tier: Tier) -> Report {
         }
     }
     rep.guard("cookie added on a redirected flow", false);
+    relative_uri_additions(&mut rep);
     rep.extra("addition_sequences", json!(seqs.len()));
     rep
 }
 
 pub fn replay(v: &Value) -> Result<Option<String>, String> {
+    if v["kind"].as_str() == Some("relative-uri") {
+        let mut r = Report::new();
+        relative_uri_additions(&mut r);
+        return Ok(r.violations.into_iter().next().map(|(k, (_, v))| format!("[{}] {}", k, v.what)));
+    }
     let cfgs = chain_cfgs();
     let cfg = cfgs.get(v["chain_cfg"].as_u64().ok_or("chain_cfg")? as usize).ok_or("chain_cfg range")?.clone();
     let mut st = ChainSt::new(cfg)?;
